@@ -140,8 +140,14 @@ func verifQueueCase(w *bufio.Writer, tags []vqTag, ops []vqOp) {
 	}
 	q := NewTagged(qtags, tagger, grouper)
 	realNow := time.Now()
+	cur := int64(verifNOW)
 	for _, op := range ops {
 		if op.push == nil {
+			if op.now > cur {
+				// time passes: a Pop at a later "now" is made that many seconds (and a bit) later
+				time.Sleep(time.Duration(op.now-cur)*time.Second + 100*time.Millisecond)
+				cur = op.now
+			}
 			c := q.Pop()
 			if c == nil {
 				fmt.Fprint(w, " 0")
@@ -236,6 +242,38 @@ func TestVerifQueue(t *testing.T) {
 		return
 	}
 
+	// the last-file delay ELAPSES while the queue is being served (1 s of real time per case): a group held
+	// back for its young last file is due again by the passage of time alone, with no Push in between
+	{
+		nw := gen.EnvInt("VERIF_QUEUE_WAIT", 0)
+		rw := gen.New(gen.Seed() ^ 0xDE1A)
+		for c := 0; c < nw; c++ {
+			r := rw.Sub(uint64(c))
+			// tag 0: delayed (1 s), priority 1 or 2; tag 1: same priority or none; tag 2: lower priority backlog
+			hp := 1 + r.Intn(2)
+			tags := []vqTag{{prio: hp, order: r.Intn(4), chunk: 1000, delay: 1}, {prio: hp, order: 0, chunk: 1000}, {prio: 0, order: 0, chunk: 1000}}
+			var push []vqItem
+			push = append(push, vqItem{name: "hi.f1", group: "hi", tag: 0, time: verifNOW, size: 5})
+			if r.Bool() {
+				// an older file before the young last one: it goes out at once, the last one waits
+				push = append([]vqItem{{name: "hi.f0", group: "hi", tag: 0, time: verifNOW - 500, size: 5}}, push...)
+			}
+			if r.Bool() {
+				push = append(push, vqItem{name: "eq.f1", group: "eq", tag: 1, time: verifNOW - 900, size: 5})
+			}
+			for i := 0; i < 2+r.Intn(4); i++ {
+				push = append(push, vqItem{name: fmt.Sprintf("lo.f%d", i), group: "lo", tag: 2, time: verifNOW - 1000 + int64(i), size: 5})
+			}
+			ops := []vqOp{{push: push}}
+			for i := 0; i < 1+r.Intn(3); i++ {
+				ops = append(ops, vqOp{now: verifNOW})
+			}
+			for i := 0; i < 8; i++ {
+				ops = append(ops, vqOp{now: verifNOW + 1})
+			}
+			verifQueueCase(w, tags, ops)
+		}
+	}
 	root := gen.New(gen.Seed() ^ 0xC10)
 	N := gen.EnvInt("VERIF_QUEUE_RANDOM", 12000)
 	if gen.Thorough() {
